@@ -125,6 +125,20 @@ pub fn parse_until<'a, T: Parse + Clone + Debug>(
 }
 
 ///
+/// Returns `false` only if the `n`th (from zero) token tree of input is a NON-EMPTY delimited group.
+/// A group which is a part of an operator (the `[]` of `=>[]`) is always empty, so `=> [f, g][0]`
+/// is `=>` with an operand which starts with an array, not `=>[]`.
+///
+pub fn is_nth_group_empty(input: ParseStream<'_>, n: usize) -> bool {
+    let input = input.fork();
+    (0..n).all(|_| skip(&input))
+        && !matches!(
+            input.parse::<TokenTree>(),
+            Ok(TokenTree::Group(group)) if !group.stream().is_empty()
+        )
+}
+
+///
 /// Skips next item in `ParseStream`. Returns `true` in case of success.
 ///
 pub fn skip(input: ParseStream<'_>) -> bool {
